@@ -1305,7 +1305,7 @@ func (e *Engine) parseTypeName(from *types.Package, name string) types.Type {
 	return t
 }
 
-var eventKinds = map[string]int{"V": 1, "B": 2, "W": 3, "CW": 4, "RV": 5, "RB": 6, "RN": 7, "CR": 8, "CS": 9, "OUT": 10, "TOK": 11, "CB": 12, "NEW": 13, "OMIT": 14, "WB": 15, "FL": 16, "CLR": 17, "HDR": 18, "IN": 19, "ENC": 20, "MAPSET": 21, "REG": 22}
+var eventKinds = map[string]int{"V": 1, "B": 2, "W": 3, "CW": 4, "RV": 5, "RB": 6, "RN": 7, "CR": 8, "CS": 9, "OUT": 10, "TOK": 11, "CB": 12, "NEW": 13, "OMIT": 14, "WB": 15, "FL": 16, "CLR": 17, "HDR": 18, "IN": 19, "ENC": 20, "MAPSET": 21, "REG": 22, "BUILD": 23}
 
 // useAxiom instantiates an axiom schema at the given argument expressions.
 func (env *Env) useAxiom(e *Expr) *Term {
